@@ -89,4 +89,13 @@ def jobs(tier):
                 if big:
                     j['split_depth'] = 18
                 out.append(j)
+    # loops whose participants may announce outputs for a later time from any sub-step (several time steps)
+    for t in topologies():
+        if t['name'] not in ('loop2', 'loop2_nested') + (() if q else ('loop2w',)):
+            continue
+        for sync in ([], sorted(t['types'])):
+            cfg = {'until': 3, 'K': 3 if q else 4, 'cache': True, 'lazy': True, 'D': 0, 'sync': sync, 'salt': 0, 'future_outputs': True,
+                   'no_self': sorted(t['types']) if t['name'] != 'loop_hy' else ['B']}
+            out.append({'id': f"{t['name']}|fut|sync={''.join(sync) or '-'}|K={cfg['K']}", 'harness': 'vk.kernels.c09:loop_run',
+                        'params': {'topo': t, 'cfg': cfg}, 'budget_s': 300})
     return out
